@@ -16,6 +16,7 @@ DECIDED += "; R7 the tokio clocks and the nominal clocks advance by the same amo
 DECIDED += '; R11 the old LocalSet is destroyed inside an entered runtime (destructors run by crash / bounce read the virtual clock)'
 DECIDED += '; R3 also: since_epoch_at_step_start = since_epoch + start_offset + elapsed; R11 also: the runtime entered for the destruction is the old one'
 DECIDED += '; R1 also: Sim::elapsed is advanced after the last host tick of the step'
+DECIDED += "; R12 every FsContext pairs a filesystem with its own clock; the software factory runs inside the host's runtime on first start too (shared C04-R5)"
 ASSUMPTIONS = ["tokio start_paused + sleep(tick) advances the runtime clock by exactly tick"]
 
 STEP = "turmoil::sim::Sim::step"
